@@ -48,4 +48,16 @@ META.update({
  "C19": {"text": "Round-trip, single-field-mutation, sign/verify and Merkle oracles over generated values of the bundled reference payload/block/crypto code, plus decoder robustness on random and corrupted bytes (rapid; native fuzzing in the thorough tier).",
          "design_ref": "DESIGN.md 4/C19", "note": "Trusted base: Go's crypto/ecdsa, sha256 and encoding/gob; the observable() rendering used to compare payloads reads every getter the library uses, in the library's order.", "technique": "property-based testing (rapid): round-trip, mutation and differential oracles; native go fuzzing of the decoder (thorough)"},
 })
+META.update({
+ "C17": {"text": "The real example binary is built from the working tree and run under generated flag/GOMAXPROCS configurations for a bounded wall-clock time; its log must show every node approving consecutive heights at about one per 5 s, identical hashes per height.",
+         "design_ref": "DESIGN.md 4/C17", "note": "Weakest of the checks: schedules are sampled by the Go runtime, not generated; the input space that is generated is the configuration.", "technique": "generated-configuration testing of the real binary with a log oracle (random configurations seeded from VERIF_SEED)", "engine": "c17"},
+})
+META.update({
+ "C18": {"text": "Generated operation sequences on the real timer.Timer compared with an interval model on the monotonic clock: early expiry, stale expiry after a later reset, lost expiry (2 s tolerance), non-immediate zero duration and wrong Height/View are violations.",
+         "design_ref": "DESIGN.md 4/C18", "note": "Depends on real time; early-ness is load independent, lateness is judged with 2 s slack only.", "technique": "model-based property testing (rapid) of the real timer against an interval model"},
+})
+META.update({
+ "C20": {"text": "Seeded random behaviours of each shipped TLA+ specification (TLC -simulate) with the spec's own invariants as the oracle on every generated state, over all admissible fault assignments for four validators and MaxView 1 and 2; the .tla files are read from the working tree at run time.",
+         "design_ref": "DESIGN.md 4/C20", "note": "Trusted base: TLC. Sampling, not exhaustive exploration (exhaustive BFS with a faulty node at MaxView=2 does not finish in minutes and would be a different technique).", "technique": "random simulation of the specification (TLC -simulate) with invariant oracle = generated-behaviour testing at model level", "engine": "tlc-simulate"},
+})
 NOT_APPLICABLE = []
